@@ -90,6 +90,8 @@ pub enum DataCmdType {
     Decrby,
     Get,
     Getbit,
+    Getdel,
+    Getex,
     Getrange,
     Getset,
     Incr,
@@ -105,6 +107,7 @@ pub enum DataCmdType {
     Setnx,
     Setrange,
     Strlen,
+    Substr,
     Eval,
     Evalsha,
     Del,
@@ -176,6 +179,8 @@ impl DataCmdType {
             b"DECRBY" => DataCmdType::Decrby,
             b"GET" => DataCmdType::Get,
             b"GETBIT" => DataCmdType::Getbit,
+            b"GETDEL" => DataCmdType::Getdel,
+            b"GETEX" => DataCmdType::Getex,
             b"GETRANGE" => DataCmdType::Getrange,
             b"GETSET" => DataCmdType::Getset,
             b"INCR" => DataCmdType::Incr,
@@ -191,6 +196,7 @@ impl DataCmdType {
             b"SETNX" => DataCmdType::Setnx,
             b"SETRANGE" => DataCmdType::Setrange,
             b"STRLEN" => DataCmdType::Strlen,
+            b"SUBSTR" => DataCmdType::Substr,
             b"EVAL" => DataCmdType::Eval,
             b"EVALSHA" => DataCmdType::Evalsha,
             b"DEL" => DataCmdType::Del,
